@@ -457,6 +457,32 @@ pub fn coarse_tokens(text: &str) -> Vec<String> {
     out
 }
 
+/// Constructs left open at the end of the input
+pub const HOSTILE_TAILS: &[&str] = &[
+    "\n/* unterminated comment caf",
+    "/*",
+    "/* *",
+    "\n// line comment without newline caf",
+    "\n\"unterminated string caf",
+    "\n#include \"unterminated",
+    "\n#include <unterminated",
+    "\n#define UNFINISHED(a, b",
+    "\n#define TAIL value caf",
+    "\n#if defined(",
+    "\n#pragma caf",
+    "\n#",
+    "\nint x = 1.0e",
+    "\nint x = 0x",
+    "\nint x = '",
+    "\nvoid f() { g(1, ",
+    "\ntemplate<typename T",
+    "\nfloat4 x = float4(1, 2",
+    "\nstruct S { int a",
+    "\n[[",
+    "\nx ? y :",
+    "\nFOO(",
+];
+
 /// Apply `n` token level mutations to a program
 pub fn mutate(rng: &mut Rng, text: &str, n: usize) -> String {
     let mut toks = coarse_tokens(text);
@@ -468,7 +494,21 @@ pub fn mutate(rng: &mut Rng, text: &str, n: usize) -> String {
             break;
         }
         let i = rng.below(toks.len());
-        match rng.below(12) {
+        match rng.below(14) {
+            12 => {
+                // an unfinished construct at the very end of the file (no newline after it), also ending in a multi-byte character
+                let tail = *rng.pick(HOSTILE_TAILS);
+                let last = *rng.pick(&["", "", "\u{e9}", "\u{2014}", "\u{1f600}", "\u{fffd}", " ", "\\", "*", "/"]);
+                toks.push(format!("{}{}", tail, last));
+                break;
+            }
+            13 => {
+                // cut the file in the middle of a token (character level)
+                let text = toks.concat();
+                let chars: Vec<char> = text.chars().collect();
+                let cut = rng.below(chars.len().max(1));
+                return chars[..cut].iter().collect();
+            }
             0 => {
                 toks.remove(i);
             }
